@@ -50,8 +50,17 @@ static X* x[2];
 static long domLo = 0, domHi = -1;
 static int lvl = 2;
 
+// A container that was copy-CONSTRUCTED may lay out its items differently from the model (how many items the copy
+// constructor allocates at once is not part of the property): from then on its white-box part names items by key instead
+// of by item id and leaves the free list out.  `g_cur` = container the current line observes; `g_nocmp` = the line is a
+// copy construction / assignment, whose number of key comparisons is not part of the tie (the property bounds lookups).
+static bool anon[4];
+static int g_cur;
+static bool g_nocmp;
+
 static void resetAll()
 {
+  for(int i = 0; i < 4; ++i) anon[i] = false;
   for(int i = 0; i < 2; ++i)
   {
     if(m[i]) m[i]->~M();
@@ -86,9 +95,11 @@ template<class C> static typename C::Iterator itAt(C& c, unsigned long p)
 template<class C> static long idOf(const C& c, const typename C::Item* it);
 template<class C> static void wbAll(const C& c);
 
+
 template<class C> static void observe(C& c, const char* ret, unsigned long cmps)
 {
-  printf("%s c=%lu n=%lu", ret, cmps, (unsigned long)c.size());
+  if(g_nocmp) printf("%s c=- n=%lu", ret, (unsigned long)c.size());
+  else printf("%s c=%lu n=%lu", ret, cmps, (unsigned long)c.size());
   if(lvl >= 1)
   {
     printf(" |");
@@ -192,7 +203,8 @@ template<class C> static void wb(const C& c, const typename C::Item* i)
   if(!i) { printf("."); return; }
   printf("(");
   wb(c, i->left);
-  printf(" %ld/%d:%lu:%ld ", idOf(c, i), i->key.k, (unsigned long)i->height, (long)i->slope);
+  if(anon[g_cur]) printf(" _/%d:%lu:%ld ", i->key.k, (unsigned long)i->height, (long)i->slope);
+  else printf(" %ld/%d:%lu:%ld ", idOf(c, i), i->key.k, (unsigned long)i->height, (long)i->slope);
   wb(c, i->right);
   printf(")");
 }
@@ -203,8 +215,16 @@ template<class C> static void wbp(const C& c, const typename C::Item* i)
   if(!i) { printf("."); return; }
   printf("(");
   wbp(c, i->left);
-  printf(" %ld/%d:%lu:%ld^", idOf(c, i), i->key.k, (unsigned long)i->height, (long)i->slope);
-  if(i->parent) printf("%ld ", idOf(c, i->parent)); else printf("- ");
+  if(anon[g_cur])
+  {
+    printf(" _/%d:%lu:%ld^", i->key.k, (unsigned long)i->height, (long)i->slope);
+    if(i->parent) printf("k%d ", i->parent->key.k); else printf("- ");
+  }
+  else
+  {
+    printf(" %ld/%d:%lu:%ld^", idOf(c, i), i->key.k, (unsigned long)i->height, (long)i->slope);
+    if(i->parent) printf("%ld ", idOf(c, i->parent)); else printf("- ");
+  }
   wbp(c, i->right);
   printf(")");
 }
@@ -220,13 +240,14 @@ template<class C> static void wbAll(const C& c)
   bool okLinks = c._end.item == &c.endItem && c.endItem.next == 0;
   for(const typename C::Item* i = c._begin.item; i != &c.endItem && n <= c._size; prev = i, i = i->next, ++n)
   {
-    printf(" %ld", idOf(c, i));
+    if(anon[g_cur]) printf(" k%d", i->key.k); else printf(" %ld", idOf(c, i));
     if(i->prev != prev) okLinks = false;
   }
   if(c.endItem.prev != prev || n != c._size) okLinks = false;
   if(!okLinks) printf(" PREV-NEXT-LINKS-BROKEN");
   printf(" free");
-  for(const typename C::Item* f = c.freeItem; f; f = f->prev) printf(" %ld", idOf(c, f));
+  if(anon[g_cur]) printf(" ~");
+  else for(const typename C::Item* f = c.freeItem; f; f = f->prev) printf(" %ld", idOf(c, f));
 }
 
 // ops on one container; returns false when the line is not one of them
@@ -241,7 +262,8 @@ template<class C> static bool doOp(C& c, HxLine& l)
   {
     wb(c, c.root);
     printf(" free");
-    for(const typename C::Item* f = c.freeItem; f; f = f->prev) printf(" %ld", idOf(c, f));
+    if(anon[g_cur]) printf(" ~");
+    else for(const typename C::Item* f = c.freeItem; f; f = f->prev) printf(" %ld", idOf(c, f));
     hxEndLine();
     return true;
   }
@@ -361,6 +383,8 @@ int main()
     int c = l.tok[0][0] - '0';
     bool multi = (c & 1) != 0;
     int di = c >> 1;
+    g_cur = c;
+    g_nocmp = false;
     if((!strcmp(l.tok[1], "assign") || !strcmp(l.tok[1], "insall") || !strcmp(l.tok[1], "copy")) && l.ntok == 3)
     {
       // copy construction / assignment between two different containers of the same kind, bulk insert between
@@ -369,6 +393,8 @@ int main()
       int sc = l.tok[2][0] - '0';
       if(sc == c || ((sc & 1) != 0) != multi || (multi && l.tok[1][0] == 'i')) { bad(); continue; }
       g_cmps = 0;
+      g_nocmp = l.tok[1][0] != 'i';            // copy / assign: the comparison count is not part of the tie
+      if(l.tok[1][0] == 'c') anon[c] = true;   // copy-constructed: item ids / free list no longer compared
       if(!multi)
       {
         M& src = *m[1 - di];
